@@ -180,5 +180,6 @@ CHECKS = {
            'checks': {'quick': 640, 'thorough': 32000},
            'shards': {'quick': 16, 'thorough': 16},
            'timeout': {'quick': 600, 'thorough': 3600}},
-          {'pkg': 'c17', 'run': 'TestCheckedIn'}]},
+          {'pkg': 'c17', 'run': 'TestCheckedIn'},
+           {'pkg': 'c17', 'run': 'TestCompiledRouting', 'shards': {'quick': 2, 'thorough': 8}, 'timeout': {'quick': 600, 'thorough': 1800}}]},
 }
